@@ -57,15 +57,16 @@ pub fn gen_count(cx: &mut Cx, label: &str, small_only: bool) -> usize {
 }
 
 pub fn gen_message(cx: &mut Cx, tag: u64) -> Bytes {
-    let big = if cx.thorough { 1 } else { 0 };
-    let len = match cx.ch.weighted("msg_len", &[8, 2, 2, 3, 3, 1, big]) {
+    // (a message of 64 KiB and more: rare in the quick tier, regular in the thorough one)
+    let big = if cx.thorough { 3 } else { 1 };
+    let len = match cx.ch.weighted("msg_len", &[24, 6, 6, 9, 9, 3, big]) {
         0 => 1 + cx.ch.choose("msg_len_s", 24) as usize,
         1 => 0,
         2 => 1,
         3 => 31 + cx.ch.choose("msg_len_32", 3) as usize,
         4 => 47 + cx.ch.choose("msg_len_48", 3) as usize,
         5 => 1024,
-        _ => 65536,
+        _ => [65535usize, 65536, 70000][cx.ch.choose("msg_len_64k", 3) as usize],
     };
     bytes_for(cx.run_seed, b"msg", tag, len)
 }
